@@ -299,6 +299,67 @@ def monitor_options(chk, rng, lines):
     chk.count("option_lines_checked")
 
 
+VAR_DEFAULTS = {"mirror_path": "$base_path/mirror", "skel_path": "$base_path/skel", "var_path": "$base_path/var",
+                "cleanscript": "$var_path/clean.sh", "postmirror_script": "$var_path/postmirror.sh"}
+
+
+def variables_one(chk, rng):
+    """`set` lines whose values refer to other settings ($name / ${name}), each key set at most once, spread in random order over
+    the main file and included files (mirror.list.d/*.list): the values the configuration ends up with are the late-bound
+    ones - every reference resolved against the final settings - whatever the order of the lines and of the files"""
+    from string import Template
+    top = fsutil.workdir("cfgvar")
+    base = f"{top}/b{rng.randint(0, 9)}"
+    cands = [("base_path", base), ("mirror_path", rng.choice(["$base_path/m", "${base_path}/mm", f"{top}/abs-mirror"])),
+             ("skel_path", rng.choice(["$base_path/s", "$mirror_path/../skel2"])), ("var_path", rng.choice(["$base_path/v", "${skel_path}/v"])),
+             ("cleanscript", rng.choice(["$var_path/c.sh", "$base_path/clean-$nthreads.sh"])), ("nthreads", str(rng.randint(1, 9))),
+             ("postmirror_script", "$var_path/post.sh")]
+    chosen = [c for c in cands if rng.random() < 0.7] or cands[:1]
+    final = dict(VAR_DEFAULTS, base_path=f"{top}/default-base", nthreads="20")
+    final.update(dict(chosen))
+
+    def resolve(v, depth=0):
+        for _ in range(20):
+            if "$" not in v:
+                return v
+            v = Template(v).substitute(final)
+        return v
+    expected = {k: resolve(v) for k, v in final.items()}
+    results = []
+    for trial in range(4):
+        order = list(chosen)
+        rng.shuffle(order)
+        nfiles = rng.randint(0, 2)
+        parts_ = [[] for _ in range(nfiles + 1)]
+        for kv in order:
+            parts_[rng.randrange(nfiles + 1)].append(kv)
+        p = os.path.join(top, f"t{trial}", "mirror.list")
+        os.makedirs(os.path.dirname(p))
+        deb = "deb http://x.example/y stable main"
+        with open(p, "w") as fp:
+            fp.write(f"set etc_netrc {top}/auth.conf\n" + "".join(f"set {k} {v}\n" for k, v in parts_[0]) + deb + "\n")
+        if nfiles:
+            os.makedirs(p + ".d")
+            for i in range(nfiles):
+                with open(os.path.join(p + ".d", f"{rng.choice('abz')}{i}.list"), "w") as fp:
+                    fp.write("".join(f"set {k} {v}\n" for k, v in parts_[i + 1]))
+        replay = {"variables": True, "main": parts_[0], "included": parts_[1:], "expected": {k: expected[k] for k in sorted(expected)}}
+        try:
+            cfg = Config(Path(p), f"{top}/default-base")
+        except Exception as ex:
+            chk.violation("variables:raises", replay, f"Config raises {type(ex).__name__}: {ex}")
+            continue
+        got = {k: cfg[k] for k in expected}
+        if got != expected:
+            bad = sorted(k for k in expected if got[k] != expected[k])
+            chk.violation("variables:value", replay, f"{bad[0]} = {got[bad[0]]!r}, the settings as written give {expected[bad[0]]!r}")
+        results.append(got)
+    if results and any(r != results[0] for r in results[1:]):
+        chk.violation("variables:order-dependent", {"variables": True, "chosen": chosen}, "the same set lines in another order / other files give other values")
+    chk.count("variable_configs", len(results))
+    fsutil.rmtree(top)
+
+
 def nested_corpus(chk):
     """directed: two repositories whose URLs are nested, in both line orders, with a skip-clean URL below both of them (each
     must protect the path relative to itself), and one below the outer repository only"""
@@ -321,6 +382,8 @@ def nested_corpus(chk):
 
 def run(chk, tier, rng):
     nested_corpus(chk)
+    for i in range(40 if tier == "quick" else 800):
+        variables_one(chk, random.Random(f"C17v-{chk.seed}-{i}"))
     default_arch = real_config(["deb http://x.example/y stable main"])[0].default_arch
     n = 150 if tier == "quick" else 3000
     for i in range(n):
